@@ -156,7 +156,24 @@ pub fn run_under_shuttle<R: Send + 'static>(
 }
 
 /// Execute the real server on the given client messages under the given schedule.
+///
+/// Each execution runs on an OS thread of its own. dprint-core keeps a per-OS-thread bump arena that it
+/// resets only when its per-thread nesting counter returns to zero, and a panic inside the formatter
+/// (finding F15) leaves that counter raised for the rest of the thread's life. In the real server every
+/// analysis is an OS thread of its own, so the arena dies with it; under shuttle all simulated threads
+/// share the caller's OS thread and the arena would grow for the rest of the process.
 pub fn execute(msgs: &[Message], spec: &SchedSpec) -> Outcome {
+    std::thread::scope(|s| {
+        std::thread::Builder::new()
+            .stack_size(16 << 20)
+            .spawn_scoped(s, || execute_on_this_thread(msgs, spec))
+            .expect("spawn execution thread")
+            .join()
+            .expect("execution thread")
+    })
+}
+
+fn execute_on_this_thread(msgs: &[Message], spec: &SchedSpec) -> Outcome {
     let _ = vcore::take_panics();
     let msgs: Vec<Message> = msgs.to_vec();
     let (res, schedule, choice_points) = run_under_shuttle(spec, move || {
